@@ -454,13 +454,22 @@ func (e *env) agreeRefServer(kex, algo string, shape int, offer *ref.GexOffer, t
 	mg, tr := e.transcript(label)
 	ent, _ := e.keys.Get(algo)
 	sec := &ref.Secret{Seed: label}
+	// shapes of K as an mpint, judged on the minimal magnitude m of the fixed-width value k:
+	// 0: shorter than the field (leading zero bytes dropped), 1: top bit of m set (a zero byte
+	// must be prepended), 2: full length with the top bit clear
+	strip := func(k []byte) []byte {
+		for len(k) > 1 && k[0] == 0 {
+			k = k[1:]
+		}
+		return k
+	}
 	switch shape {
 	case 0:
-		sec.Shape = func(k []byte) bool { return k[0] == 0 && k[1] != 0 }
+		sec.Shape = func(k []byte) bool { return len(strip(k)) < len(k) }
 	case 1:
-		sec.Shape = func(k []byte) bool { return k[0]&0x80 != 0 }
+		sec.Shape = func(k []byte) bool { return strip(k)[0]&0x80 != 0 }
 	case 2:
-		sec.Shape = func(k []byte) bool { return k[0] != 0 && k[0]&0x80 == 0 }
+		sec.Shape = func(k []byte) bool { return len(strip(k)) == len(k) && k[0]&0x80 == 0 }
 	}
 	if offer == nil {
 		offer = gexOfferFor(label)
@@ -1397,11 +1406,21 @@ func run(c *vf.Ctx) {
 	// ---- part A
 	for _, kex := range e.kex {
 		m, _ := ref.Lookup(kex)
+		reps := 1
+		if c.Thorough && !e.slowKex[kex] {
+			reps = 4 // more seeded value classes of the ephemeral secrets
+		}
 		for _, algo := range e.algos {
 			kex, algo := kex, algo
 			add(func() { e.agreeRR(kex, algo) })
-			add(func() { e.agreeRefServer(kex, algo, -1, nil, "") })
-			add(func() { e.agreeRefClient(kex, algo, [3]uint32{2048, 3072, 8192}, "") })
+			for v := 0; v < reps; v++ {
+				tag := ""
+				if v > 0 {
+					tag = fmt.Sprintf("v%d", v)
+				}
+				add(func() { e.agreeRefServer(kex, algo, -1, nil, tag) })
+				add(func() { e.agreeRefClient(kex, algo, [3]uint32{2048, 3072, 8192}, tag) })
+			}
 		}
 		// the three shapes of K as mpint
 		shapeOK := m.Kind == ref.KindX25519 || (m.Kind == ref.KindDH && m.Bits <= 2048) || (m.Kind == ref.KindECDH && m.Curve == "nistp256")
